@@ -362,6 +362,57 @@ def _rematch_shard(shard) -> Dict[str, Any]:
     return out
 
 
+def _crowd_shard(shard) -> Dict[str, Any]:
+    """a fleet far larger than the requests: `crowd` eligible vehicles standing on ONE cell (ids sorting before and after the
+    foreground ids) plus two foreground vehicles on every pair of cells, against every placement of 1-2 requests and every
+    multiset placement of 3.  The crowd stands on one cell, so the minimum over all pairings is the minimum over the
+    foreground vehicles plus as many crowd members as there are requests -- still brute force."""
+    crowd, part, nparts = shard
+    ctx = Ctx(())
+    cells = cells7()
+    crowd_cell = cells[6]
+    out = {"cases": 0, "nontrivial": 0, "findings": {}, "samples": []}
+    # half of the crowd sorts before the foreground ids "v0", "v1" ("c..."), the other half after ("w...")
+    members = [mk_vehicle(ctx.env, ctx.rn, f"{'c' if k % 2 == 0 else 'w'}{k:04d}", crowd_cell, "quiet", soc=0.5, fleets=()) for k in range(crowd)]
+    sim_c = ctx.sim(members, [])
+    i = 0
+    for vp in itertools.product(range(7), repeat=2):
+        i += 1
+        if i % nparts != part:
+            continue
+        fg = [ctx.vehicle(k, cells[c], "eligible") for k, c in enumerate(vp)]
+        sim_v = sim_c
+        for v in fg:
+            sim_v = simulation_state_ops.add_vehicle_safe(sim_v, v).unwrap()
+        rplaces = [rp for nr in (1, 2) for rp in itertools.product(range(7), repeat=nr)] + list(itertools.combinations_with_replacement(range(7), 3))
+        for rp in rplaces:
+            sim = sim_v
+            for k, c in enumerate(rp):
+                sim = simulation_state_ops.add_request_safe(sim, ctx.request(k, cells[c], "waiting")).unwrap()
+            out["cases"] += 1
+            out["nontrivial"] += 1
+            _, instr = ctx.dispatcher.generate_instructions(sim, ctx.env)
+            pairs = [(x.vehicle_id, x.request_id) for x in instr]
+            bad = []
+            if any(a not in sim.vehicles or b not in sim.requests for a, b in pairs):
+                bad.append((("unknown_entity", "crowd"), f"pairs {pairs} name a missing entity"))
+            elif len({a for a, _ in pairs}) != len(pairs) or len({b for _, b in pairs}) != len(pairs):
+                bad.append((("not_one_to_one", "crowd"), f"{crowd + 2} eligible vehicles, {len(rp)} requests: pairs {pairs} reuse a vehicle or a request"))
+            elif len(pairs) != len(rp):
+                bad.append((("size", "too_few" if len(pairs) < len(rp) else "too_many", "crowd"), f"{len(pairs)} pairs for {crowd + 2} eligible vehicles and {len(rp)} eligible requests"))
+            else:
+                cost = sum(h3.h3_distance(sim.vehicles[a].geoid, sim.requests[b].geoid) for a, b in pairs)
+                best = brute_min(fg + members[: len(rp)], [sim.requests[f"r{k}"] for k in range(len(rp))])
+                if cost > best:
+                    bad.append((("not_minimal", "crowd"), f"total grid distance {cost}, the minimum over all pairings of that size is {best} (pairs {pairs})"))
+            for sig, msg in bad:
+                out["findings"].setdefault(sig, (msg, {"kind": "crowd", "crowd": crowd, "vehicles": list(vp), "requests": list(rp)}))
+            if len(out["samples"]) < 1 and len(rp) == 2:
+                out["samples"].append({"crowd_of": crowd, "crowd_cell": 6, "foreground_vehicle_cells": list(vp), "request_cells": list(rp)})
+    out["findings"] = [(list(k), m, rp) for k, (m, rp) in out["findings"].items()]
+    return out
+
+
 def _public_shard(shard) -> Dict[str, Any]:
     gi = shard
     ctx = Ctx(("f1", "f2"))
@@ -406,6 +457,9 @@ def c12() -> int:
     eres += pmap(_rematch_shard, list(range(len(GEOMS))))
     eres += pmap(_public_shard, list(range(len(GEOMS))))
     eres += pmap(_chargingbase_shard, [(gi, thr) for gi in range(len(GEOMS)) for thr in (RANGE_THRESHOLD_KM / 4.0, RANGE_THRESHOLD_KM * 3.0)])
+    crowds = (300,) if quick else (40, 257, 300, 520)
+    cres = pmap(_crowd_shard, rotate([(n, p, 8) for n in crowds for p in range(8)], seed()))
+    eres += cres
     cases = sum(r["cases"] for r in gres + eres)
     nontrivial = sum(r["nontrivial"] for r in gres + eres)
     for r in gres + eres:
@@ -420,9 +474,11 @@ def c12() -> int:
             "distinct_nontrivial": nontrivial,
             "rule": "(i) every placement of nv vehicles and nr requests on 7 cells for all (nv, nr) in {0..3}^2"
             + ("" if quick else " plus every multiset placement for (4,1..4),(1..3,4),(5,1..3),(1..3,5)")
-            + ", all eligible, no fleets; (iii) on the same geometries, under a configuration whose valid_dispatch_states include DispatchTrip, every combination of (eligible, en route to its own request, out of service) x (waiting, has a vehicle); (ii) on 6 fixed 3x3 geometries every combination of 7 vehicle attributes (eligible, out of service, off shift, low range, other fleet, no fleet, both fleets) and 3 request attributes (waiting, has a vehicle, other fleet), without fleets, with fleets {f1,f2} and with the single declared fleet {f1}; non-trivial = both sides non-empty / some attribute not the default",
+            + ", all eligible, no fleets; (iii) on the same geometries, under a configuration whose valid_dispatch_states include DispatchTrip, every combination of (eligible, en route to its own request, out of service) x (waiting, has a vehicle); (ii) on 6 fixed 3x3 geometries every combination of 7 vehicle attributes (eligible, out of service, off shift, low range, other fleet, no fleet, both fleets) and 3 request attributes (waiting, has a vehicle, other fleet), without fleets, with fleets {f1,f2} and with the single declared fleet {f1}; (iv) a crowd of N eligible vehicles on one cell (N = " + "/".join(map(str, crowds)) + ") plus two foreground vehicles on every pair of the 7 cells x every placement of 1-2 requests and every multiset placement of 3; non-trivial = both sides non-empty / some attribute not the default",
             "geometry_cases": sum(r["cases"] for r in gres),
-            "eligibility_cases": sum(r["cases"] for r in eres),
+            "eligibility_cases": sum(r["cases"] for r in eres) - sum(r["cases"] for r in cres),
+            "crowd_cases": sum(r["cases"] for r in cres),
+            "crowd_sizes": list(crowds),
             "samples": [s for r in gres for s in r["samples"]][:2] + [s for r in eres for s in r["samples"]][:2],
         }
     )
@@ -433,6 +489,14 @@ def c12() -> int:
     ]
     log(f"  C12: {sum(r['cases'] for r in gres)} placements, {sum(r['cases'] for r in eres)} eligibility cases")
     return c.finish()
+
+
+def _crowd_replay(rp) -> bool:
+    """re-runs the crowd shard cases up to and including the recorded one (same process history) and reports whether it fails"""
+    res = _crowd_shard((rp["crowd"], 0, 1))
+    for sig, msg, r in res["findings"]:
+        print(" | ".join(sig), "::", msg, r)
+    return bool(res["findings"])
 
 
 def replay(body) -> int:
@@ -453,6 +517,13 @@ def replay(body) -> int:
         vc, rc = GEOMS[rp["geometry"]]
         vs = [ctx.vehicle(k, cells[vc[k]], rp["vehicle_attrs"][k]) for k in range(3)]
         rs = [ctx.request(k, cells[rc[k]], rp["request_attrs"][k]) for k in range(3)]
+    elif rp["kind"] == "crowd":
+        r = _crowd_replay(rp)
+        if r:
+            print(f"VIOLATION property=C12 replay={body.get('_path')}")
+            return 1
+        print("not reproduced on this tree")
+        return 0
     elif rp["kind"] == "geometry":
         ctx = Ctx(())
         vs = [ctx.vehicle(k, cells[c], "eligible") for k, c in enumerate(rp["vehicles"])]
